@@ -279,6 +279,8 @@ def run(prog: Program, roots=None, prop="C14", rid_prefix="R-C14") -> Results:
         res.add(f"{rid_prefix}-4", (rts.key, "resolver keeps state"), rts.loc(),
                 f"{rts.key} stores state on the document / is decorated: the resolved target set may be stale on a later access")
     if prop == "C14":
+        from sa.rules import cursor
+        cursor.check(prog, res, "R-C14-8", ("expressions/set.py", "expressions/scope.py", "expressions/source_code.py", "expressions/let.py"), 1)
         lookup_failures(prog, res, f"{rid_prefix}-6")
         identity_of_bindings(prog, res, f"{rid_prefix}-7")
     res.tables.append(f"sa/rules/c14.py:REVIEWED_NO_MIRROR ({len(REVIEWED_NO_MIRROR)} entries)")
